@@ -708,3 +708,50 @@ Example ex_channel :
   fold_left (cstep 250 250) [(1000, CSet 0 1000 255 2000); (1000, CRun); (1250, CRun); (1500, CRun); (1750, CRun)]
             (None, None, None) = (None, Some (255 * SC), Some 255).
 Proof. vm_compute. reflexivity. Qed.
+
+(* ------------------------------------------------------------------------------------------ *)
+(* 8. brightness correction (gamma_correct with factor f4/4) *)
+
+Lemma gam_full c : gam 4 c = c.
+Proof. destruct c as [[r g] b]. unfold gam. rewrite !Z.div_mul by lia. reflexivity. Qed.
+
+Lemma gam1_mono f4 x y : 0 <= f4 -> x <= y -> x * f4 / 4 <= y * f4 / 4.
+Proof. intros. apply Z.div_le_mono; nia. Qed.
+
+(* correction is monotone per component: a corrected fade stays between its corrected endpoints *)
+Lemma gam_between_l f4 a x b : 0 <= f4 -> between a x b -> between (gam f4 a) (gam f4 x) (gam f4 b).
+Proof.
+  intro Hf. destruct a as [[a1 a2] a3], x as [[x1 x2] x3], b as [[b1 b2] b3]. cbn.
+  intros (H1 & H2 & H3).
+  assert (G : forall p q r, Z.min p r <= q <= Z.max p r ->
+              Z.min (p * f4 / 4) (r * f4 / 4) <= q * f4 / 4 <= Z.max (p * f4 / 4) (r * f4 / 4)).
+  { intros p q r [L U].
+    destruct (Z_le_gt_dec p r).
+    - rewrite Z.min_l in L by lia. rewrite Z.max_r in U by lia.
+      pose proof (gam1_mono f4 p q Hf L). pose proof (gam1_mono f4 q r Hf U). lia.
+    - rewrite Z.min_r in L by lia. rewrite Z.max_l in U by lia.
+      pose proof (gam1_mono f4 r q Hf L). pose proof (gam1_mono f4 q p Hf U). lia. }
+  repeat split; apply G; assumption.
+Qed.
+
+(* at factor f4/4 <= 1 the corrected component never exceeds the logical one and is >= 0 *)
+Lemma gam_bounded_l f4 r g b : 0 <= f4 <= 4 -> 0 <= r -> 0 <= g -> 0 <= b ->
+  let '(r', g', b') := gam f4 (r, g, b) in 0 <= r' <= r /\ 0 <= g' <= g /\ 0 <= b' <= b.
+Proof.
+  intros Hf Hr Hg Hb. cbn.
+  assert (G : forall x, 0 <= x -> 0 <= x * f4 / 4 <= x).
+  { intros x Hx. split; [apply Z.div_pos; nia | apply Z.div_le_upper_bound; nia]. }
+  repeat split; apply G; assumption.
+Qed.
+
+(* the command sent at rest carries the corrected logical colour: corollary of
+   hw_equals_logical_at_rest for the factor in effect when the last command was sent *)
+Lemma hw_corrected_at_rest_l : forall h now f4,
+  timed_ok 0 h -> last_time 0 h <= now ->
+  let l := lrun linit h in
+  rest (stack l) now = true ->
+  gam f4 (hw_target l) = gam f4 (col (stack l) now).
+Proof. intros h now f4 T L l R. destruct (hw_equals_logical_at_rest_l h now T L R) as [E _]. fold l in E. rewrite E. reflexivity. Qed.
+
+Example ex_gam : gam 2 (255, 128, 64) = (127, 64, 32) /\ gam 3 (255, 0, 1) = (191, 0, 0).
+Proof. vm_compute. auto. Qed.
